@@ -4,33 +4,37 @@ import ActixNet.Lemmas.Framed
 
 Property theorems only.  `wsend` (`write`/`start_send`), `wflush` (`flush`/`poll_flush`), `wready`
 (`poll_ready`), `wclose` (`close`/`poll_close`) in Model/Framed.lean transcribe framed.rs:161–175,
-237–321 over a scripted transport (`poll_write`: accept k | pending | zero | err; `poll_flush`,
-`poll_shutdown`: ok | pending | err).  `written` is every byte the transport accepted, in order;
-`accepted` (ghost) the encodings of the items `start_send` accepted.
+237–321 over a scripted **buffering** transport (`poll_write`: accept k | pending | zero | err;
+`poll_flush`, `poll_shutdown`: ok | pending | err).  The transport *stages* what `poll_write`
+accepted (`staged`) and puts it on the wire (`written`) only when its own `poll_flush` (or
+`poll_shutdown`) completes — a `BufWriter`/TLS-like transport; `accepted` (ghost) are the encodings
+of the items `start_send` accepted.  So "nothing remains buffered" means: nothing in `write_buf`
+**and** nothing staged in the transport.
 
-`wclose` is modelled as the property and the function's own doc comment demand (flush the write
-buffer, then shut down).  The unchanged tree only flushes the transport — finding F4, replay
-corpus/C14/close-does-not-flush.ops, fix /verif/fixes/C14-close-flush.patch.
+`wclose` flushes the write buffer, then shuts down (the tree's `close` since the fix of finding F4,
+replay corpus/C14/close-does-not-flush.ops).
 -/
 namespace ActixNet.C14
 open ActixNet.Src ActixNet.Framed
 
 /-- **lossless and ordered**, in every reachable state: for every interleaving of the four `Sink`
 methods, every script of partial writes / `Pending`s / zero writes / errors of the transport, the
-bytes that reached the transport followed by the bytes still buffered are exactly the concatenation,
-in order, of the encodings of the items accepted by `start_send` -/
+bytes on the wire, followed by the bytes staged in the transport, followed by the bytes still
+buffered are exactly the concatenation, in order, of the encodings of the items accepted by
+`start_send` -/
 theorem lossless_ordered {I} (enc : Enc I) (ops : List (WOp I)) (ws : List Wr) (fs ss : List Fl) :
-    (wrun enc (winit ws fs ss) ops).2.written ++ (wrun enc (winit ws fs ss) ops).2.wbuf =
+    (wrun enc (winit ws fs ss) ops).2.written ++ (wrun enc (winit ws fs ss) ops).2.staged ++
+        (wrun enc (winit ws fs ss) ops).2.wbuf =
       (acceptedOf enc ops (wrun enc (winit ws fs ss) ops).1).flatten := by
   have h := (wrun_spec enc ops (winit ws fs ss) (by simp [Lossless, winit])).1
   rw [Lossless, accepted_eq] at h
   simpa [winit] using h
 
-/-- what reached the transport is always a prefix of the accepted encodings, and only grows -/
+/-- what reached the wire is always a prefix of the accepted encodings, and only grows -/
 theorem written_is_prefix {I} (enc : Enc I) (ops : List (WOp I)) (ws : List Wr) (fs ss : List Fl) :
     (wrun enc (winit ws fs ss) ops).2.written <+:
       (acceptedOf enc ops (wrun enc (winit ws fs ss) ops).1).flatten :=
-  ⟨_, lossless_ordered enc ops ws fs ss⟩
+  ⟨_, by rw [← lossless_ordered enc ops ws fs ss, List.append_assoc]⟩
 
 theorem written_only_grows {I} (enc : Enc I) (s : WState) (op : WOp I) (h : Lossless s) :
     s.written <+: (wstep enc s op).2.written := (wstep_spec enc s op h).2.1
@@ -42,20 +46,72 @@ example : (wrun linesEnc (winit [.accept 1, .pending, .accept 2] [] [])
       [.send [97, 98], .flush, .send [99], .flush, .flush]).2.written = [97, 98, 10, 99, 10] := by
   decide
 
-/-- `poll_flush` reports success only when nothing remains buffered -/
-theorem flush_ok_empty (s : WState) (h : (wflush s).1 = .ok) : (wflush s).2.wbuf = [] :=
+/-- `poll_flush` reports success only when nothing remains buffered **anywhere**: `write_buf` is
+empty and the transport holds no staged bytes, and the transport's own `poll_flush` was called (and
+completed) in this very call -/
+theorem flush_ok_empty (s : WState) (h : (wflush s).1 = .ok) :
+    (wflush s).2.wbuf = [] ∧ (wflush s).2.staged = [] ∧ (wflush s).2.nFlush = s.nFlush + 1 :=
   (wflush_spec s).2.1 h
+
+/-- **flush complete ⇒ all accepted bytes delivered**: from any lossless state, when `poll_flush`
+answers `Ready(Ok)` the wire holds exactly the encodings of all accepted items -/
+theorem flush_complete (s : WState) (hl : Lossless s) (h : (wflush s).1 = .ok) :
+    (wflush s).2.written = s.accepted.flatten := by
+  have hm := (wflush_spec s).1
+  obtain ⟨hb, hs, _⟩ := flush_ok_empty s h
+  rw [← hm.acc]
+  exact (hm.lossless hl).delivered hb hs
+
+/-- … in particular after any interleaving of the `Sink` methods under any transport scripts -/
+theorem flush_delivers_all {I} (enc : Enc I) (ops : List (WOp I)) (ws : List Wr) (fs ss : List Fl)
+    (h : (wflush (wrun enc (winit ws fs ss) ops).2).1 = .ok) :
+    (wflush (wrun enc (winit ws fs ss) ops).2).2.written =
+      (acceptedOf enc ops (wrun enc (winit ws fs ss) ops).1).flatten := by
+  have hl := (wrun_spec enc ops (winit ws fs ss) (by simp [Lossless, winit])).1
+  rw [flush_complete _ hl h, accepted_eq]
+  simp [winit]
 
 example : (wflush { wbuf := [1, 2, 3], wscript := [.accept 2] }).1 = .ok ∧
     (wflush { wbuf := [1, 2, 3], wscript := [.accept 2] }).2.written = [1, 2, 3] := by decide
 
-/-- `poll_close` reports success only when nothing remains buffered and the transport was shut
-down (false of the unchanged tree: finding F4) -/
+/-- the staging is real: when the transport's `poll_flush` is `Pending`, `write_buf` has been drained
+but nothing is on the wire yet and `poll_flush` answers `Pending`; only the re-poll that completes the
+transport flush delivers the bytes (a `poll_flush` that answered `Ready(Ok)` on the re-poll because
+`write_buf` is empty, without polling the transport, would violate `flush_ok_empty`) -/
+example : (wflush { wbuf := [1, 2, 3], fscript := [.pending] }).1 = .pending ∧
+    (wflush { wbuf := [1, 2, 3], fscript := [.pending] }).2.wbuf = [] ∧
+    (wflush { wbuf := [1, 2, 3], fscript := [.pending] }).2.staged = [1, 2, 3] ∧
+    (wflush { wbuf := [1, 2, 3], fscript := [.pending] }).2.written = [] ∧
+    (wflush (wflush { wbuf := [1, 2, 3], fscript := [.pending] }).2).1 = .ok ∧
+    (wflush (wflush { wbuf := [1, 2, 3], fscript := [.pending] }).2).2.written = [1, 2, 3] ∧
+    (wflush (wflush { wbuf := [1, 2, 3], fscript := [.pending] }).2).2.nFlush = 2 := by decide
+
+/-- a flush on an empty `write_buf` still has to flush the transport -/
+example : (wflush { staged := [7], accepted := [[7]] }).1 = .ok ∧
+    (wflush { staged := [7], accepted := [[7]] }).2.written = [7] ∧
+    (wflush { staged := [7], accepted := [[7]], fscript := [.err .TimedOut] }).1 = .err .TimedOut ∧
+    (wflush { staged := [7], accepted := [[7]], fscript := [.err .TimedOut] }).2.staged = [7] := by decide
+
+/-- `poll_close` reports success only when nothing remains buffered anywhere and the transport was
+shut down (false of the tree before the fix of finding F4) -/
 theorem close_ok_empty (s : WState) (h : (wclose s).1 = .ok) :
-    (wclose s).2.wbuf = [] ∧ (wclose s).2.shut = true := (wclose_spec s).2.2 h
+    (wclose s).2.wbuf = [] ∧ (wclose s).2.staged = [] ∧ (wclose s).2.shut = true :=
+  (wclose_spec s).2.2 h
+
+/-- **close complete ⇒ all accepted bytes delivered** -/
+theorem close_complete (s : WState) (hl : Lossless s) (h : (wclose s).1 = .ok) :
+    (wclose s).2.written = s.accepted.flatten ∧ (wclose s).2.shut = true := by
+  have hm := (wclose_spec s).1
+  obtain ⟨hb, hs, hsh⟩ := close_ok_empty s h
+  rw [← hm.acc]
+  exact ⟨(hm.lossless hl).delivered hb hs, hsh⟩
 
 example : (wclose { wbuf := [104, 105], accepted := [[104, 105]] }).1 = .ok ∧
     (wclose { wbuf := [104, 105], accepted := [[104, 105]] }).2.written = [104, 105] := by decide
+example : (wclose { wbuf := [104], accepted := [[104]], fscript := [.pending], sscript := [.pending] }).1 = .pending ∧
+    (wclose (wclose { wbuf := [104], accepted := [[104]], fscript := [.pending], sscript := [.pending] }).2).1 = .pending ∧
+    (wclose (wclose (wclose { wbuf := [104], accepted := [[104]], fscript := [.pending], sscript := [.pending] }).2).2).1 = .ok := by
+  decide
 
 /-- `poll_close` never shuts the transport down while bytes are buffered -/
 theorem close_flushes_first (s : WState) (h : (wflush s).1 ≠ .ok) :
@@ -117,7 +173,8 @@ example : (wready { wbuf := [1, 2, 3], wscript := [.err .BrokenPipe] }) =
 reported and the buffer is kept (nothing is lost) -/
 theorem write_zero (s : WState) (t : List Wr) (hb : s.wbuf ≠ [])
     (hsc : s.wscript = .zero :: t ∨ s.wscript = .accept 0 :: t) :
-    (wflush s).1 = .err .WriteZero ∧ (wflush s).2.wbuf = s.wbuf ∧ (wflush s).2.written = s.written := by
+    (wflush s).1 = .err .WriteZero ∧ (wflush s).2.wbuf = s.wbuf ∧ (wflush s).2.written = s.written ∧
+    (wflush s).2.staged = s.staged := by
   have hne : s.wbuf.isEmpty = false := by cases h : s.wbuf <;> simp_all
   have hz : framedWriteZero 0 = true := by decide
   unfold wflush
@@ -147,10 +204,22 @@ theorem write_reserves_room (remaining : Nat) : framedLW ≤ writeRoom remaining
 /-- a transport error leaves the buffer intact, so a later flush can still deliver everything -/
 theorem error_keeps_buffer (s : WState) (k : ErrorKind) (t : List Wr) (hb : s.wbuf ≠ [])
     (hsc : s.wscript = .err k :: t) :
-    (wflush s).1 = .err k ∧ (wflush s).2.wbuf = s.wbuf ∧ (wflush s).2.written = s.written := by
+    (wflush s).1 = .err k ∧ (wflush s).2.wbuf = s.wbuf ∧ (wflush s).2.written = s.written ∧
+    (wflush s).2.staged = s.staged := by
   have hne : s.wbuf.isEmpty = false := by cases h : s.wbuf <;> simp_all
   unfold wflush
   rw [show s.wscript.length + 2 = (s.wscript.length + 1) + 1 from rfl, wflushLoop]
   simp [hne, hsc]
+
+/-- what the transport has taken (wire + staged) only grows: no method takes bytes back -/
+theorem taken_only_grows {I} (enc : Enc I) (s : WState) (op : WOp I) :
+    (s.written ++ s.staged) <+: ((wstep enc s op).2.written ++ (wstep enc s op).2.staged) := by
+  cases op with
+  | send item =>
+    simp only [wstep, wsend]
+    split <;> exact List.prefix_refl _
+  | ready => exact (wready_spec s).1.taken
+  | flush => exact (wflush_spec s).1.taken
+  | close => exact (wclose_spec s).1.taken
 
 end ActixNet.C14
